@@ -1320,6 +1320,7 @@ class Evaluator:
     bound = {}
     pos = list(args)
     star_pos = [x for x in pos if x.op == 'starred']
+    rest = []
     if star_pos:
       # unknown number of positionals: bind what we can by position, rest unknown
       newpos = []
@@ -1334,7 +1335,7 @@ class Evaluator:
           bound[p] = T('argsplat', tuple(rest), i)
     for p, v in zip(params, pos):
       bound[p] = v
-    extra = pos[len(params):]
+    extra = pos[len(params):] + list(rest if a.vararg else [])
     if a.vararg:
       bound[a.vararg.arg] = T('tuple', *extra)
     kw_left = dict(kwargs)
